@@ -391,6 +391,10 @@ def run(ck: Check):
     ck.cover(evaluations=len(cases), distinct=nontrivial, samples=samples, dist=dict(dist, corpus=len(corpus)))
     ck.assumptions.append("SQLite executes one INSERT / one SELECT COUNT atomically and enforces the primary key; dataset/SQLAlchemy are "
                           "modelled, not verified; the table holds ids 0..b-1 when the sessions start (rows are never deleted)")
+    ck.partial.append("the replay forces interleavings only at hook H1's sync point (between the count and the insert statement); "
+                      "schedules finer than that — e.g. another process committing inside a non-atomic insert helper such as "
+                      "dataset's insert_ignore (SELECT then INSERT) — are outside the replay; the shape pin retry_loop_unbounded "
+                      "(one table_session.insert inside try/except IntegrityError, gen/sessionloop.py) is what breaks on such a rewrite")
     ck.partial.append("OS-level timing is outside the model: SQLite busy time-outs under real parallel load and the lazy CREATE TABLE of "
                       "dataset when several processes hit a brand-new database at the same instant are reached by neither proof nor replay")
 
